@@ -269,6 +269,10 @@ program!(
     ReluMix, |l| { let p = l[0].mul(&l[1]).relu(); vec![p.add(&l[0])] }
 );
 program!(
+    /// relu(x) + x: the relu's operand has a second consumer
+    ReluShare, |l| { let p = l[0].relu(); vec![p.add(&l[0])] }
+);
+program!(
     /// exp/ln round: ln(a) * b + exp(c)
     LnExp, |l| { let p = l[0].ln().mul(&l[1]); vec![p.add(&l[2].exp())] }
 );
